@@ -40,7 +40,7 @@ func ruleP19Rmw(p *Prog, r *Report) {
 			if !ok {
 				return
 			}
-			if n, _, _, _ := methodCallOf(c); n == "ReadBookmarks" {
+			if p.isBookmarkRead(c) {
 				read = c
 			}
 			if !c.Common().IsInvoke() && staticCallee(c) == nil {
@@ -91,8 +91,17 @@ func ruleP19Rmw(p *Prog, r *Report) {
 		}
 		r.check(okData, rule, key+":data", p.instrPos(w), "writes ToJson() of the manipulated collection", "the bytes written are not ToJson() of the collection the callback manipulated")
 		// ReadBookmarks implementation reads from the same path function
-		for _, rb := range p.implsOf("klog/app", "Context", "ReadBookmarks") {
-			eachInstr(rb, func(in ssa.Instruction) {
+		bodies := p.implsOf("klog/app", "Context", "ReadBookmarks")
+		if g := rawStaticCallee(read); g != nil && !read.Common().IsInvoke() {
+			if n, _, _, _ := methodCallOf(read); n != "ReadBookmarks" {
+				// the function ReadBookmarks forwards to, called directly: its parameters stand
+				// for the arguments of this call
+				bodies = []*ssa.Function{originFn(g)}
+				ht.ctx[originFn(g)] = read
+			}
+		}
+		for _, rb := range bodies {
+			eachVInstr(rb, func(in ssa.Instruction) {
 				if c, ok := in.(ssa.CallInstruction); ok {
 					if g := staticCallee(c); g != nil && fnBase(g) == "ReadFile" {
 						if pc, idx := callOf(c.Common().Args[0]); pc != nil && idx == 0 && pathCallee != nil && sameFn(staticCallee(pc), pathCallee) {
@@ -569,9 +578,12 @@ func ruleP19Sorted(p *Prog, r *Report) {
 	r.check(okNoAppend, rule, "All:final", p.instrPos(sortCall), "nothing is added after sorting", "elements are added after the sort")
 	// comparator: res[i].Name() < res[j].Name()
 	okCmp := false
+	otherOrder := ""
 	for _, ret := range returnsOf(less) {
 		b, ok := strip(retResult(ret, 0)).(*ssa.BinOp)
 		if !ok || (b.Op != token.LSS && b.Op != token.LEQ) {
+			// a return that answers by something other than the names: a second sort criterion
+			otherOrder = p.instrPos(ret)
 			continue
 		}
 		idx := func(v ssa.Value) ssa.Value {
@@ -599,6 +611,9 @@ func ruleP19Sorted(p *Prog, r *Report) {
 		}
 	}
 	r.check(okCmp, rule, "All:ascending", p.pos(less.Pos()), "ascending by Name()", "the comparator is not name[i] < name[j]")
+	if okCmp {
+		r.check(otherOrder == "", rule, "All:by-name-only", p.pos(less.Pos()), "the name is the only sort criterion", "the comparator also orders by something other than the name (return at "+otherOrder+"): the list and the database are not ordered by name")
+	}
 	// every element of the map is collected: append in a range over the map, unconditional
 	okCollect := false
 	eachInstr(all, func(in ssa.Instruction) {
@@ -765,24 +780,26 @@ func ruleP19Names(p *Prog, r *Report) {
 	// NewName: empty -> constant
 	fallback := ""
 	okFb := false
-	for _, ret := range returnsOf(newName) {
-		v := strip(retResult(ret, 0))
+	unconv := func(v ssa.Value) ssa.Value {
+		v = strip(v)
 		if cv, ok := v.(*ssa.Convert); ok {
-			v = cv.X
+			v = strip(cv.X)
 		}
 		if ch, ok := v.(*ssa.ChangeType); ok {
-			v = ch.X
+			v = strip(ch.X)
 		}
-		if ph, ok := v.(*ssa.Phi); ok {
-			for i, e := range ph.Edges {
-				if s, isS := constString(e); isS {
-					// the edge must be the one where value == ""
-					pb := ph.Block().Preds[i]
-					for _, g := range append(guardsOf(pb), edgeGuard(pb, ph.Block())...) {
-						if _, isEmpty, isG := emptyGuard(g); isG && isEmpty {
-							fallback, okFb = s, true
-						}
-					}
+		return v
+	}
+	for _, ret := range returnsOf(newName) {
+		for _, rw := range valueRows(unconv(retResult(ret, 0)), 0, map[ssa.Value]bool{}) {
+			s, isS := constString(unconv(rw.val))
+			if !isS {
+				continue
+			}
+			// the row must be the one where the (stripped) value is empty
+			for _, g := range append(append([]Guard{}, rw.guards...), guardsOf(ret.Block())...) {
+				if _, isEmpty, isG := emptyGuard(g); isG && isEmpty {
+					fallback, okFb = s, true
 				}
 			}
 		}
